@@ -339,6 +339,10 @@ impl Check for C12 {
                             MVal::Mac0(model::MMac0 { prot: MProt::default(), unprot: wc.clone(), payload: None, tag: vec![] }),
                             MVal::Header(wc),
                             MVal::SuppPub(MSuppPub { key_data_length: 1, prot: p, other: None }),
+                            // a protected header that was decoded (it holds received bytes) and then edited
+                            // in memory, serialised on its own
+                            MVal::ProtMap(MProt { bytes: Some(vec![0xa1, 0x01, 0x26]), header: h.clone() }),
+                            MVal::ProtMap(MProt { bytes: Some(vec![]), header: h.clone() }),
                         ];
                         let k = ctx.rng.below(vals.len());
                         encode_case(ctx, &vals[0], class);
